@@ -24,7 +24,7 @@ NOT_DECIDED = ["floating-point conditioning of 1/det and the singular case", "np
 ASSUMPTIONS = ["lo <= hi (A_V range)", "<= and < identified for real comparisons (no exact ties)", "remove_resolved off (extended == [])",
                "model fluxes non-zero (strictly positive grid)"]
 TRUSTED = ["python ast", "sedlint E4 normal form (ring axioms, ln of monomials, Iverson idempotence, Shannon expansion)"]
-MIN = {'ALG-1': 2, 'ALG-3': 2, 'ALG-4': 2, 'ALG-6': 8, 'ALG-8': 5, 'ALG-5': 2}
+MIN = {'ALG-1': 2, 'ALG-3': 2, 'ALG-4': 2, 'ALG-6': 8, 'ALG-8': 5, 'ALG-5': 2, 'ALG-9': 6, 'EFF-4': 1}
 TECHNIQUE = 'static analysis: AST value numbering of array expressions to a polynomial normal form, compared with the statement\'s formulas'
 
 VOCAB = {'R', 'wt', 'A', 'S', 'F', 'L', 'err', 'valid', 'lo', 'hi', 'names', 'logd', 'data', 'model', 'conf', 'Fs', 'Es'}
@@ -203,6 +203,8 @@ def run(ctx):
     check_fitter(ctx)
     check_log_fluxes(ctx)
     check_flag_weights(ctx)
+    from . import c14
+    c14.check_get_av(ctx)        # 'k is the extinction law normalised to -0.4 at V' (ALG-9, EFF-4)
 
 
 # ---------------------------------------------------------------- self-validation corpus (thorough tier)
